@@ -10,7 +10,7 @@ Tag(l, p) == IF l = 1 THEN "one:" ELSE "two:"
 PName(p) == CASE p = A -> "a" [] p = DA -> "d/a" [] p = C -> "c" [] p = DC -> "d/c" [] OTHER -> "r"
 \* a-files include "c" by a relative name: resolved in their own directory
 Content(l, p) == IF p \in {A, DA} THEN (IF NestedKind = "extends" THEN <<Ref("extends", Name(FALSE, <<"c">>)), Text(Tag(l, p) \o PName(p))>>
-                                        ELSE <<Text(Tag(l, p) \o PName(p) \o "("), Ref(NestedKind, Name(FALSE, <<"c">>)), Text(")")>>)
+                                        ELSE <<Text(Tag(l, p) \o PName(p) \o "("), Ref(IF NestedKind \in {"child", "loop"} THEN "include" ELSE NestedKind, Name(FALSE, <<"c">>)), Text(")")>>)
                  ELSE <<Text(Tag(l, p) \o PName(p))>>
 Loader(l, mask, extra) ==
   LET ps == {Paths[i] : i \in {j \in 1..4 : Bit(mask, j)}} IN
@@ -37,9 +37,17 @@ ChildInit ==
      LET rootFile == (RootLocs[rl] :> <<Ref("extends", Name(TRUE, IF mid THEN midLoc ELSE BaseLocs[bl])), Text("junk"), blk>>) IN
      /\ loaders = << Loader(1, m1, (IF rootIn = 1 THEN rootFile ELSE <<>>) @@ baseFile @@ midFile), Loader(2, m2, IF rootIn = 2 THEN rootFile ELSE <<>>) >>
      /\ root = Name(TRUE, RootLocs[rl])
+\* (NestedKind = "loop") one computed include executed for a list of names
+LoopNames == << Name(TRUE, <<"a">>), Name(TRUE, <<"d", "a">>), Name(TRUE, <<"c">>), Name(TRUE, <<"nope">>), Name(TRUE, <<"d", "c">>) >>
+LoopInit ==
+  \E k \in {"lazy", "lazy_if"}, m1 \in Layouts, m2 \in Layouts, n \in 1..3 :
+    \E pick \in [1..n -> 1..Len(LoopNames)] :
+       LET rootFile == (<<"r">> :> <<Text("R"), Loop(k, [i \in 1..n |-> LoopNames[pick[i]]]), Text("!")>>) IN
+       /\ loaders = << Loader(1, m1, rootFile), Loader(2, m2, <<>>) >>
+       /\ root = Name(TRUE, <<"r">>)
 Init ==
   /\ go = FALSE
-  /\ IF NestedKind = "child" THEN ChildInit ELSE
+  /\ IF NestedKind = "child" THEN ChildInit ELSE IF NestedKind = "loop" THEN LoopInit ELSE
      \E k \in 1..Len(Kinds), n \in 1..Len(Names), m1 \in Layouts, m2 \in Layouts, rl \in 1..2, rootIn \in {1, 2}, two \in BOOLEAN :
        /\ (Kinds[k] \in {"lazy", "lazy_if"} => Names[n].rooted)        \* computed names: rooted only
        /\ LET items == IF Kinds[k] = "extends" THEN <<Ref("extends", Names[n]), Text("junk")>>
